@@ -8,7 +8,7 @@
    Specifications: Spec/C20Attr.v (IHI 0045, RISC-V psABI), Spec/C20Ehabi.v (IHI 0038). *)
 From PV Require Import Base.Bytes Base.Outcome Base.Prim Spec.PrimSpec Model.C20Types
   Gen.C20Tables Spec.C20Attr Spec.C20Ehabi Model.C20Attr Model.C20Ehabi
-  Proofs.C20Attr Proofs.C20Ehabi.
+  Proofs.C20Attr Proofs.C20Ehabi Gen.PyFuns Proofs.PyFunsC20.
 
 (* ======================= build attributes ======================= *)
 
@@ -59,6 +59,12 @@ Print Assumptions C20_attributes_exact.
 Theorem C20_prel31_spec : forall w place, arm_expand_prel31 w place = prel31_spec w place.
 Proof. exact prel31_model_spec. Qed.
 Print Assumptions C20_prel31_spec.
+
+(* the same for the function body TRANSLATED from the live Python source on every run
+   (Gen/PyFuns.v gen_arm_expand_prel31, by tools/gen/pyast.py) *)
+Theorem C20_translated_prel31_spec : forall w place, gen_arm_expand_prel31 w place = prel31_spec w place.
+Proof. exact gen_prel31_spec. Qed.
+Print Assumptions C20_translated_prel31_spec.
 
 (* every displacement in [-2^30, 2^30) survives the encoding, whatever bit 31 of the word is *)
 Theorem C20_prel31_roundtrip : forall w d place,
